@@ -206,8 +206,25 @@ def strategy(tier):
     def case(draw):
         counter = [0]
         depth = draw(st.sampled_from([1, 2, 2, 3] if tier == 'quick' else [1, 2, 3, 3]))
+        body = draw(stmts(depth, 'module', counter))
+        if draw(st.integers(0, 3)) == 0:
+            # one case in four: a class (or the module itself) mixing definitions with unsupported and supported hints in a drawn order
+            defs = []
+            for bad in draw(st.permutations([True, False, False])):
+                counter[0] += 1
+                defs.append({'k': 'def', 'async': draw(st.integers(0, 4)) == 0, 'n': counter[0], 'annotated': True,
+                             'hint': draw(st.sampled_from(BAD_HINT_SRC if bad else ['int', 'str'])),
+                             'decos': draw(st.sampled_from([[], [], ['staticmethod'], ['classmethod']])) if not bad else [],
+                             'ret': draw(st.booleans()), 'body': [{'k': 'expr', 'n': counter[0] + 1000}]})
+            if draw(st.booleans()) or draw(st.booleans()):
+                counter[0] += 1
+                body = body + [{'k': 'class', 'n': counter[0], 'decos': [], 'body': defs}]
+            else:
+                for d in defs:
+                    d['decos'] = []
+                body = body + defs
         return {'doc': draw(st.booleans()), 'future': draw(st.sampled_from([[], [], ['annotations'], ['annotations', 'division']])),
-                'body': draw(stmts(depth, 'module', counter)),
+                'body': body,
                 'pep526': draw(st.booleans()) or draw(st.booleans()),
                 'place_func': draw(st.sampled_from(['LAST_BEFORE_DECOR_HOSTILE', 'LAST', 'FIRST'])),
                 'place_type': draw(st.sampled_from(['LAST', 'FIRST', 'LAST_BEFORE_DECOR_HOSTILE'])),
@@ -507,6 +524,13 @@ def behavioural(case, src, fail):
         unsupported_def = _import_time_unsupported(case['body'])
         if unsupported_def and hk['import'] == 'ok' and hd['import'] == 'ok' and 'BeartypeClawDecorWarning' not in hk['warnings']:
             fail('unsupported-hint-no-warning', 'a definition with an unsupported hint was imported under the hook without BeartypeClawDecorWarning (warnings: %r)' % (hk['warnings'],))
+        # independent of the hand-written module (which goes through the same decorator): every reachable annotated definition
+        # with a supported hint rejects an argument of the wrong type, whatever else its module or class contains
+        if hk['import'] == 'ok':
+            for label, has_bad_sibling in _must_reject(case['body'], ''):
+                if label in hk['probes'] and not hk['probes'][label].endswith('Violation'):
+                    fail('annotated-definition-left-unchecked%s' % (':sibling-of-unsupported-hint' if has_bad_sibling else ''),
+                         'probe %s under the hook -> %r, expected a violation' % (label, hk['probes'][label]))
         # hooked == hand-written
         if (hk['import'], hk['line']) != (hd['import'], hd['line']):
             what = 'line' if hk['import'] == hd['import'] else 'outcome'
@@ -533,6 +557,28 @@ def behavioural(case, src, fail):
         return res
     finally:
         shutil.rmtree(root, ignore_errors=True)
+
+
+def _must_reject(body, prefix, in_class=False):
+    """[(probe label, the enclosing class or module also holds a definition with an unsupported hint)] for every definition
+    reachable by the probes (module level, module-level control flow, class bodies there) that has a supported hint on its
+    parameter and no decorator that replaces it by another callable."""
+    out = []
+    bad = any(s['k'] == 'def' and s['annotated'] and s['hint'] in BAD_HINT_SRC for s in _flat(body))
+    for s in _flat(body):
+        if s['k'] == 'def' and s['annotated'] and s['hint'] in ('int', 'str') and 'wrapping' not in s['decos'] and 'property' not in s['decos']:
+            out.append(('%sf%d(%s)' % (prefix, s['n'], 'str' if s['hint'] == 'int' else 'int'), bad))
+        elif s['k'] == 'class':
+            out += _must_reject(s['body'], '%sC%d.' % (prefix, s['n']), True)
+    return out
+
+
+def _flat(body):
+    for s in body:
+        if s['k'] == 'ctrl':
+            yield from _flat(s['body'])
+        else:
+            yield s
 
 
 def _import_time_unsupported(body):
@@ -611,6 +657,8 @@ def run_case(case):
         r = behavioural(case, src, fail)
         evals += 3 if r else 0
     feats = _features(case['body'])
+    if any(b and '.' in lab for lab, b in _must_reject(case['body'], '')):
+        feats.add('aa:method-beside-unsupported-hint')
     nontriv = bool(feats & {'annotated-def-in-class', 'annotated-def-in-func', 'non-name-target', 'decorator-stack'})
     return {'fails': fails, 'nontrivial': nontriv, 'evals': evals,
             'classes': sorted(feats)[:8] + ['behavioural' if case.get('behavioural') else 'structural-only',
